@@ -41,7 +41,10 @@ RULE = ('random combinatorial mesh (1-3 element types out of line, spring, tri, 
         'descending or shuffled per type block) x 0-4 extra nodal variables (plus NODE, or no nodal variable at all after '
         'nodal_data.pop) x 0-4 elemental variables (attached through update_data or generate_elemental_attribute) of widths '
         '1-9 x float64 values drawn from small integers, dyadic rationals, decimals, NaN, +-0.0, denormals, 1e+-300, '
-        'DBL_MAX, +-inf and uniformly random bit patterns, in coordinates too; distinct = distinct (mesh, variables, values); '
+        'DBL_MAX, +-inf and uniformly random bit patterns, in coordinates too; in 40% of the cases a share of the nodal and '
+        'elemental variables is stored under a dict key that differs from its FEMAttribute.name (fresh name, the key of '
+        'another variable, one name shared by several keys; attached by attrs[key] = attribute, attrs.update({key: attribute}) '
+        'or set_attribute_data(key, data, name=...)): the variable\'s name in the file and after reading is the KEY; distinct =distinct (mesh, variables, values); '
         'non-trivial = at least 2 elements and at least one variable besides NODE. Stream own-id-order: the same meshes, '
         'every variable stored in a private id order drawn from {mesh order, ascending, descending, reversed mesh order, '
         'rolled, shuffled}, 2-4 variables in at least one of the two families (nodal / elemental); non-trivial = some '
@@ -129,6 +132,23 @@ def private_order(rnd, ids, cls):
     return ids
 
 
+def rename_some(rnd, vars_, aligned):
+    """a share of the variables of one family is stored under a dict KEY (v['name'], the variable's name for the user and
+    in the file) that differs from its FEMAttribute.name (v['attr']): a fresh name, the key of another variable of the
+    family, or one name shared by several keys.  Such a variable is attached through `attrs[key] = attribute`,
+    `attrs.update({key: attribute})` or `attrs.set_attribute_data(key, data, name=...)` (the last one takes the ids of
+    the first attribute: only for variables in mesh order)"""
+    keys = [v['name'] for v in vars_]
+    shared = rand_names(rnd, 1, taken=keys)[0]
+    for v in vars_:
+        if rnd.random() < .65:
+            others = [k for k in keys if k != v['name']]
+            r = rnd.random()
+            v['attr'] = shared if r < .45 else rnd.choice(others) if (r < .7 and others) else rand_names(rnd, 1, taken=keys)[0]
+            if v['how'] != 'generate':
+                v['how'] = rnd.choice(['setitem', 'update'] + (['set_attribute_data'] if aligned else []))
+
+
 def gen_case(rnd, own_orders=False):
     """-> JSON-able description from which `build` makes the FEMData; own_orders: every variable keeps its rows in a
     private id order, and at least one family (nodal / elemental) has two or more variables"""
@@ -168,6 +188,9 @@ def gen_case(rnd, own_orders=False):
     nv = [var(n, nids, 'update_data') for n in rand_names(rnd, n_nv)]
     ev = [var(n, eids, rnd.choice(['update_data', 'update_data', 'generate'] if own_orders else ['update_data', 'generate']))
           for n in rand_names(rnd, n_ev)]
+    if rnd.random() < .4:
+        rename_some(rnd, nv, aligned=not own_orders)
+        rename_some(rnd, ev, aligned=not own_orders)
     return {'nodes': nodes, 'blocks': blocks, 'nodal_vars': nv, 'elem_vars': ev, 'pop_node': pop_node,
             'kind': m['kind'], 'order': m['order'], 'id_style': m['id_style']}
 
@@ -204,14 +227,31 @@ def build(case):
     el = {t: FEMAttribute(t, ids=np.array([e for e, _ in b]), data=np.array([c for _, c in b]), silent=True)
           for t, b in case['blocks'].items()}
     fd = FEMData(nodes=nodes, elements=FEMElementalAttribute('ELEMENT', el))
-    for v in case['nodal_vars']:
-        fd.nodal_data.update_data(np.array(v['ids']), {v['name']: np.array(v['data'], dtype=float)})
-    for v in case['elem_vars']:
-        if v['how'] == 'generate':
-            fd.elemental_data[v['name']] = fd.elements.generate_elemental_attribute(
-                v['name'], np.array(v['ids']), np.array(v['data'], dtype=float))
+
+    def attach(attrs, v, make):
+        """store the variable under the KEY v['name']; its FEMAttribute.name is v['attr'] (default: the key)"""
+        key, attr, ids, data = v['name'], v.get('attr', v['name']), np.array(v['ids']), np.array(v['data'], dtype=float)
+        how = v['how']
+        if how == 'set_attribute_data' and not (len(attrs) and [int(i) for i in list(attrs.values())[0].ids] == v['ids']
+                                                and attrs.are_same_lengths()):
+            how = 'setitem'      # set_attribute_data binds the rows to the ids of the first attribute
+        if how == 'update_data':
+            assert attr == key
+            attrs.update_data(ids, {key: data})
+        elif how == 'generate':
+            attrs[key] = fd.elements.generate_elemental_attribute(attr, ids, data)
+        elif how == 'setitem':
+            attrs[key] = make(attr, ids, data)
+        elif how == 'update':
+            attrs.update({key: make(attr, ids, data)})
+        elif how == 'set_attribute_data':
+            attrs.set_attribute_data(key, data, name=attr)
         else:
-            fd.elemental_data.update_data(np.array(v['ids']), {v['name']: np.array(v['data'], dtype=float)})
+            raise ValueError(how)
+    for v in case['nodal_vars']:
+        attach(fd.nodal_data, v, lambda name, ids, data: FEMAttribute(name, ids=ids, data=data))
+    for v in case['elem_vars']:
+        attach(fd.elemental_data, v, lambda name, ids, data: FEMElementalAttribute(name, data, ids=ids))
     if case['pop_node']:
         fd.nodal_data.pop('NODE')
     return fd
@@ -325,7 +365,9 @@ def brief(case):
             'n_elems': sum(len(b) for b in case['blocks'].values()), 'types': list(case['blocks']),
             'nodal_vars': [(v['name'], len(v['data'][0])) for v in case['nodal_vars']],
             'elem_vars': [(v['name'], len(v['data'][0]), v['how']) for v in case['elem_vars']],
-            'pop_node': case['pop_node']}
+            'pop_node': case['pop_node'],
+            'key!=FEMAttribute.name': {v['name']: [v['attr'], v['how']] for v in case['nodal_vars'] + case['elem_vars']
+                                       if v.get('attr', v['name']) != v['name']}}
 
 
 def oracle(ctx, case, report):
@@ -459,8 +501,20 @@ def own_order_families(case):
     return out
 
 
+def count_renames(ctx, case, stream=''):
+    for fam, vars_ in (('nodal', case['nodal_vars']), ('elemental', case['elem_vars'])):
+        ren = [v for v in vars_ if v.get('attr', v['name']) != v['name']]
+        for v in ren:
+            ctx.count(f'{stream}key != FEMAttribute.name: {fam} variable attached by {v["how"]}')
+        names = [v.get('attr', v['name']) for v in vars_]
+        if len(set(names)) < len(names):
+            ctx.count(f'{stream}key != FEMAttribute.name: cases with two {fam} keys sharing one attribute name')
+        if any(v['attr'] in {w['name'] for w in vars_} for v in ren):
+            ctx.count(f'{stream}key != FEMAttribute.name: cases with a {fam} attribute named like another key')
+
+
 def run(ctx):
-    n_cases = ctx.n(220, 2500) if ctx.driver is not None else ctx.n(400, 3000)
+    n_cases =ctx.n(220, 2500) if ctx.driver is not None else ctx.n(400, 3000)
     cfg_mismatch = {c: [] for c in CFGS}
     if ctx.driver is not None:
         check_ws_table(ctx)
@@ -486,6 +540,7 @@ def run(ctx):
         ctx.count(f"n_elem_vars:{len(case['elem_vars'])}")
         for v in case['elem_vars']:
             ctx.count('elemental attached by:' + v['how'])
+        count_renames(ctx, case)
         ctx.count('values:nan', sum(1 for x in vals if x != x))
         ctx.count('values:inf', sum(1 for x in vals if math.isinf(x)))
         ctx.count('values:-0.0', sum(1 for x in vals if x == 0 and math.copysign(1, x) < 0))
@@ -504,6 +559,7 @@ def run(ctx):
             ctx.count(f'own-id-order: {key} variables with distinct private orders != mesh order: {min(n, 3)}{"+" if n >= 3 else ""}')
         for v in case['nodal_vars'] + case['elem_vars']:
             ctx.count('own-id-order: attached by ' + v['how'])
+        count_renames(ctx, case, 'own-id-order: ')
         run_case(ctx, case, cfg_mismatch, stream='own-id-order')
     if ctx.driver is not None:
         agree = [c for c in CFGS if not cfg_mismatch[c]]
